@@ -62,6 +62,11 @@ func cmdVerify(args []string) {
 		os.Exit(2)
 	}
 	fmt.Print(driver.Summary(rs))
+	for _, r := range rs {
+		if r.Status != "unsat" && r.Kind == "contract-applies" {
+			fmt.Printf("FAILED %s: %s\n", r.ID, r.Output)
+		}
+	}
 }
 
 func cmdCheck(args []string) int {
